@@ -179,9 +179,9 @@ func checkC17(c *Ctx) {
 		{Name: "identical-x2-fully-cold", State: "fully-cold", Cmds: []concCmd{{"A", K0, nil, sleepy}, {"A", K0, nil, ""}}},
 		// Staged schedules: the second command reaches the linker protocol exactly while the first one sits
 		// between "linker built" and "linker stamped/executed".
-		{Name: "staged-second-arrives-after-linker-build", State: "warm-nolinker", Cmds: []concCmd{{"A", K0, nil, "link.afterBuild=hold:240000"}, {"A", K0, nil, ""}}, After: map[int]string{1: "0:link.build.end"}, Release: map[int]string{0: "link.afterBuild:1"}},
-		{Name: "staged-second-arrives-after-stamp", State: "warm-nolinker", Cmds: []concCmd{{"A", K0, nil, "link.afterStamp=hold:240000;toolexec.beforeExec.link=sleep:1500"}, {"B", K0, nil, ""}}, After: map[int]string{1: "0:link.stamp"}, Release: map[int]string{0: "link.afterStamp:1"}},
-		{Name: "staged-second-arrives-during-linker-build", State: "stale-stamp", Cmds: []concCmd{{"A", K0, nil, "link.beforeBuild=hold:240000"}, {"B", K1, nil, ""}}, After: map[int]string{1: "0:link.build.begin"}, Release: map[int]string{0: "link.beforeBuild:1"}},
+		{Name: "staged-second-arrives-after-linker-build", State: "warm-nolinker", Cmds: []concCmd{{"A", K0, nil, "link.afterBuild=hold:900000"}, {"A", K0, nil, ""}}, After: map[int]string{1: "0:link.build.end"}, Release: map[int]string{0: "link.afterBuild:1"}},
+		{Name: "staged-second-arrives-after-stamp", State: "warm-nolinker", Cmds: []concCmd{{"A", K0, nil, "link.afterStamp=hold:900000;toolexec.beforeExec.link=sleep:1500"}, {"B", K0, nil, ""}}, After: map[int]string{1: "0:link.stamp"}, Release: map[int]string{0: "link.afterStamp:1"}},
+		{Name: "staged-second-arrives-during-linker-build", State: "stale-stamp", Cmds: []concCmd{{"A", K0, nil, "link.beforeBuild=hold:900000"}, {"B", K1, nil, ""}}, After: map[int]string{1: "0:link.build.begin"}, Release: map[int]string{0: "link.beforeBuild:1"}},
 	}
 	if !c.Quick() {
 		base := scenarios
@@ -196,6 +196,15 @@ func checkC17(c *Ctx) {
 			concScenario{Name: "flags-x3-fully-cold", State: "fully-cold", Cmds: []concCmd{{"A", K0, nil, ""}, {"A", K1, nil, sleepy}, {"B", K3, nil, ""}}},
 			concScenario{Name: "projects-x4-linker-deleted", State: "warm-nolinker", Cmds: []concCmd{{"A", K0, nil, ""}, {"B", K0, nil, sleepy}, {"A", K3, nil, ""}, {"B", K1, nil, ""}}},
 		)
+	}
+	if only := os.Getenv("VERIF_C17_ONLY"); only != "" { // debugging aid: run the scenarios whose name contains this
+		var sel []concScenario
+		for _, s := range scenarios {
+			if strings.Contains(s.Name, only) {
+				sel = append(sel, s)
+			}
+		}
+		scenarios = sel
 	}
 	classes := map[string]int{}
 	var cmu sync.Mutex
@@ -272,7 +281,7 @@ func checkC17(c *Ctx) {
 				point, other, _ := strings.Cut(rel, ":")
 				j, _ := strconv.Atoi(other)
 				<-start
-				st := linkStepState(results[j].logDir, 200*time.Second)
+				st := linkStepState(results[j].logDir, 800*time.Second)
 				os.WriteFile(filepath.Join(results[ci].logDir, "release-"+point), nil, 0o644)
 				smu.Lock()
 				staged[point] = st
